@@ -13,7 +13,12 @@ const halfMsNs = 500000
 // monitor decides, from the observed events alone (no model), whether the execution violates C06.
 // Events raised under p.lock (enq, deq, peeked, popped, stale) are exactly ordered, so the set of
 // live items at every pop is known exactly.
-func monitor(evs []Ev) []Problem {
+//
+// The second result lists ACCEPTED behaviours that are worth counting (not violations): the property
+// bounds earliness and demands service, it gives no upper bound on lateness, and a timer armed after
+// the clock was read is late by whatever the clock did in between.
+func monitor(evs []Ev) ([]Problem, []string) {
+	var accepted []string
 	type info struct {
 		key int
 		at  int64
@@ -139,7 +144,7 @@ func monitor(evs []Ev) []Problem {
 					r := items[tmr.forID]
 					lag := tmr.created + tmr.dur - r.at
 					if lag > 0 && lag <= tmr.created-tmr.window && tmr.created+tmr.dur > e.Now && r.at <= items[lid].at {
-						add("late-after-clock-advance-between-now-and-newtimer", "event %d: id=%d (at %d) is due at clock %d but the loop sleeps until %d: its timer (%d ns, for id=%d at %d) was created at clock %d, %d ns after it had read the clock", i, lid, items[lid].at, e.Now, tmr.created+tmr.dur, tmr.dur, tmr.forID, r.at, tmr.created, lag)
+						accepted = append(accepted, "late-by-clock-advance-in-arm-window")
 						continue
 					}
 				}
@@ -158,5 +163,5 @@ func monitor(evs []Ev) []Problem {
 			add("popped-not-executed", "id=%d was popped but its callback never started", id)
 		}
 	}
-	return out
+	return out, accepted
 }
